@@ -119,6 +119,12 @@ def lazy_instances(tier):
         for m in range(0, 4):
             yield ("lazy_zip", "((1 to %d) lazy_zip (11 to %d))" % (n, 10 + m),
                    [clist(ints(p)) for p in zip(r, range(11, 11 + m))])
+        # a zip with an infinite component is as long as its finite one; three-way zips; zip with a combining function
+        yield ("lazy_zip", "(iota(7) lazy_zip (1 to %d))" % n, [clist(ints(p)) for p in zip(range(7, 7 + n), r)])
+        yield ("lazy_zip", "((1 to %d) lazy_zip repeat(9))" % n, [clist(ints([x, 9])) for x in r])
+        yield ("lazy_zip", "lazy_zip(cycle([5, 6]), (1 to %d), iota(0))" % n, [clist(ints([5 + (i % 2), x, i])) for i, x in enumerate(r)])
+        yield ("lazy_zip", "((1 to %d) lazy_zip iota(3) with +)" % n, ints([x + 3 + i for i, x in enumerate(r)]))
+        yield ("lazy_map", "((1 to %d) lazy_zip (1 to %d) lazy_map sum)" % (n, n), ints([2 * x for x in r]))
         yield ("lazy_map", "(stream([%s]) lazy_map (+1))" % ", ".join(map(str, r)), ints([x + 1 for x in r]))
         yield ("lazy_filter", "((1 to %d) lazy_map (*3) lazy_filter even)" % n, ints([x * 3 for x in r if (x * 3) % 2 == 0]))
     yield ("lazy_map", "(permutations([1, 2, 3]) lazy_map first)", ints([p[0] for p in itertools.permutations([1, 2, 3])]))
